@@ -45,9 +45,18 @@ func VerifC09Locks() {
 		}
 	}
 	sup := supply()
+	alive1 := !(vBool("burnFirst") && z == y1) // a lock burnt completely is gone
 
 	vAssume(tick(viaNetmap, e1))
 	r1, r2 := u1 <= e1, u2 <= e1
+	rel := 0
+	if alive1 && r1 {
+		rel++
+	}
+	if r2 {
+		rel++
+	}
+	vAssert(len(vEvents("balance", "Transfer")) == rel, "C09/one-unlock-transfer-per-lock-released-by-the-tick")
 	want := x - y1 - y2
 	if r1 {
 		want += rem1
@@ -76,6 +85,14 @@ func VerifC09Locks() {
 
 	vAssume(tick(viaNetmap, e2))
 	s1, s2 := u1 <= e2, u2 <= e2
+	rel = 0
+	if alive1 && s1 && !r1 {
+		rel++
+	}
+	if s2 && !r2 {
+		rel++
+	}
+	vAssert(len(vEvents("balance", "Transfer")) == rel, "C09/a-released-lock-account-disappears")
 	want2 := x - y1 - y2
 	if s1 {
 		want2 += rem1
